@@ -5,8 +5,8 @@
   all sizes; all oracle histories):
     * about definitions regenerated from the headers on every run (`Gen.Restart`: both `nev_adjusted`, `is_complex`, `is_conj`,
       one pass of the general shift loop with its Ritz reads, the frames of both `restart`s and both `compute`s):
-        c13_herm_k, c13_gen_k, c13_herm_shift_count, c13_gen_shift_reads, c13_gen_shift_oob_exact, c13_gen_shift_degree,
-        c13_gen_restart_safe_partial
+        c13_herm_k, c13_gen_k, c13_herm_shift_count, c13_gen_shift_reads, c13_gen_shift_inbounds, c13_gen_shift_degree,
+        c13_gen_restart_safe, c13_gen_restart_pairs_partial
     * about the hand-written index programs / operator-call skeleton `Model/RestartIdx.lean` (which are built from those
       translated pieces): c13_work_bound_herm, c13_work_bound_gen, c13_cshift_extra_solves, c13_op_args_herm, c13_op_args_gen,
       c13_termination, c13_compress_indices, c13_factorize_indices
@@ -66,18 +66,16 @@ theorem c13_gen_shift_reads (ritz : Int → α × α) (ncv k : Int) (hk : 0 ≤ 
     AdjacentConj ritz ncv k ↔ InBounds ncv (genPasses ritz ncv k) ∧ AllPaired ritz (genPasses ritz ncv k) :=
   shift_iff_aux ritz ncv _ k rfl hk
 
-/-- EXACT statement of the out-of-range read alone: the loop reads index `ncv` iff it arrives at the last position `ncv-1`
-    (it has not hopped over it by a double shift from `ncv-2`) and the last Ritz value is complex.  So in-bounds-ness does NOT
-    imply `AdjacentConj` (see the example `safe_but_unpaired`), only the conjunction in `c13_gen_shift_reads` does. -/
-theorem c13_gen_shift_oob_exact (ritz : Int → α × α) (ncv k : Int) (hk : 0 ≤ k) :
-    InBounds ncv (genPasses ritz ncv k) ↔ ∀ p ∈ genPasses ritz ncv k, p.i = ncv - 1 → is_complex (ritz (ncv - 1)) = false :=
-  inBounds_iff ritz ncv k hk
+/-- with the bounds guard `i + 1 < m_ncv` in front of the conjugate test, EVERY Ritz read of the shift loop is inside [0, ncv),
+    for all Ritz data (no pairing hypothesis): the clause "never trips an internal index assertion" for this loop, at full strength -/
+theorem c13_gen_shift_inbounds (ritz : Int → α × α) (ncv k : Int) (hk : 0 ≤ k) : InBounds ncv (genPasses ritz ncv k) :=
+  inBounds_always ritz ncv k hk
 
-/-- if all reads are in bounds, the shifts applied have total degree exactly `ncv - k`: `m_k = k` afterwards, so that `compress_V`
-    touches `Q(m-1, k-1)`, `H(k, k-1)` with 1 ≤ k ≤ ncv-1 and `factorize_from(k, ncv)` does not throw (model: stop = none). -/
-theorem c13_gen_shift_degree (ritz : Int → α × α) (ncv k : Int) (hk : 0 ≤ k) (hlt : k < ncv)
-    (hb : InBounds ncv (genPasses ritz ncv k)) :
+/-- the shifts applied have total degree exactly `ncv - k`: `m_k = k` afterwards, so that `compress_V` touches `Q(m-1, k-1)`,
+    `H(k, k-1)` with 1 ≤ k ≤ ncv-1 and `factorize_from(k, ncv)` does not throw (model: stop = none) — for all Ritz data -/
+theorem c13_gen_shift_degree (ritz : Int → α × α) (ncv k : Int) (hk : 0 ≤ k) (hlt : k < ncv) :
     (genRestart ritz ncv k).mkAfter = k ∧ ∀ bd, (genRestartCalls ncv k ritz bd).2 = Stop.none := by
+  have hb := inBounds_always ritz ncv k hk
   have hd := inbounds_degree_aux ritz ncv _ k rfl hk (by omega) hb
   have hf := genRestart_frame ritz ncv k hlt
   refine ⟨by rw [hf]; show ncv - degree (genPasses ritz ncv k) = k; omega, fun bd => ?_⟩
@@ -88,30 +86,32 @@ theorem c13_gen_shift_degree (ritz : Int → α × α) (ncv k : Int) (hk : 0 ≤
   rw [this]; simp only []
   rw [if_neg (by omega)]
 
-/-- FULL CHAIN on the translated code: restart size from `nev_adjusted`, then the shift loop.
-    `_partial`: the clause "never trips an internal index assertion" needs TWO facts about the Ritz values that the code does not
-    establish itself: (a) `AdjacentConj ritz ncv 0` — complex values sit next to their conjugates (guaranteed by
-    UpperHessenbergEigen's output order + a STABLE sort; `std::sort` is not stable for more than 16 elements), and (b) `hns` — the
-    values on the two sides of a block boundary are not conjugates of each other (fails iff the same complex pair occurs twice
-    in a row: the trailing test of `nev_adjusted` then moves k INTO a pair).  Without (a) or without (b) the statement is false:
-    `oob_witness`, `oob_duplicate_pair_witness` below. -/
-theorem c13_gen_restart_safe_partial (nev ncv : Int) (est ritz : Int → α × α) (nconv : Int)
-    (h1 : 1 ≤ nev) (h2 : nev ≤ ncv - 2) (h3 : 0 ≤ nconv)
-    (hadj : AdjacentConj ritz ncv 0)
-    (hns : let p := genNevPre nev ncv est nconv
-           AdjacentConj ritz ncv p → ¬(is_complex (ritz (p - 1)) = true ∧ is_conj (ritz (p - 1)) (ritz p) = true)) :
+/-- FULL CHAIN on the translated code, full strength: restart size from `nev_adjusted`, then the shift loop — for ALL Ritz data the
+    reads are in bounds, m_k = k, factorize_from does not throw -/
+theorem c13_gen_restart_safe (nev ncv : Int) (est ritz : Int → α × α) (nconv : Int)
+    (h1 : 1 ≤ nev) (h2 : nev ≤ ncv - 2) (h3 : 0 ≤ nconv) :
     let k := genNevAdj nev ncv est ritz nconv
     InBounds ncv (genPasses ritz ncv k) ∧ (genRestart ritz ncv k).mkAfter = k ∧ ∀ bd, (genRestartCalls ncv k ritz bd).2 = Stop.none := by
   intro k
   have hk := (c13_gen_k nev ncv est ritz nconv h1 h2 h3)
+  exact ⟨inBounds_always ritz ncv k (by have := hk.2.1.1; omega),
+         c13_gen_shift_degree ritz ncv k (by have := hk.2.1.1; omega) (by have := hk.2.1.2; omega)⟩
+
+/-- what still needs hypotheses is NUMERICAL adequacy, not safety: every complex Ritz value is treated together with its conjugate
+    (one double shift) provided (a) complex values sit next to their conjugates and (b) no complex pair is duplicated across the
+    boundary that `nev_adjusted` tests (both needed: witnesses below) -/
+theorem c13_gen_restart_pairs_partial (nev ncv : Int) (est ritz : Int → α × α) (nconv : Int)
+    (h1 : 1 ≤ nev) (h2 : nev ≤ ncv - 2) (h3 : 0 ≤ nconv)
+    (hadj : AdjacentConj ritz ncv 0)
+    (hns : let p := genNevPre nev ncv est nconv
+           AdjacentConj ritz ncv p → ¬(is_complex (ritz (p - 1)) = true ∧ is_conj (ritz (p - 1)) (ritz p) = true)) :
+    AllPaired ritz (genPasses ritz ncv (genNevAdj nev ncv est ritz nconv)) := by
+  have hk := (c13_gen_k nev ncv est ritz nconv h1 h2 h3)
   have hp := gen_pre nev ncv est nconv h1 h2 h3
-  have hadjk : AdjacentConj ritz ncv k := by
-    show AdjacentConj ritz ncv (genNevAdj nev ncv est ritz nconv)
+  have hadjk : AdjacentConj ritz ncv (genNevAdj nev ncv est ritz nconv) := by
     rw [gen_adj_eq]
     exact bump_boundary ritz ncv _ (by omega) hadj hns
-  have hb := ((c13_gen_shift_reads ritz ncv k (by have := hk.2.1.1; omega)).mp hadjk).1
-  have := c13_gen_shift_degree ritz ncv k (by have := hk.2.1.1; omega) (by have := hk.2.1.2; omega) hb
-  exact ⟨hb, this⟩
+  exact ((c13_gen_shift_reads ritz ncv _ (by have := hk.2.1.1; omega)).mp hadjk).2
 
 /-! ## (4) work bound: number of operator applications of `init(); compute(maxit)` -/
 
@@ -253,14 +253,14 @@ open Gen.Restart RestartIdx
 attribute [local instance] scInt
 
 -- notation of the witnesses: 5, 7 real; a = 1+2i, ā = 1-2i, b = 2+i
-/-- FULL-STRENGTH CLAUSE (not provable, false): "for all Ritz data the shift loop reads only indices < ncv".
-    Witness: ncv = 3, k = 1, Ritz values [5, a, b] — the last value is complex and is not the conjugate partner of its predecessor:
-    the loop reads index 3 = ncv. -/
-example : 3 ∈ allReads (genPasses (ofL [(5, 0), (1, 2), (2, 1)]) 3 1) ∧ ¬ InBounds 3 (genPasses (ofL [(5, 0), (1, 2), (2, 1)]) 3 1) := by
-  have h : genPasses (ofL [(5, 0), (1, 2), (2, 1)]) 3 1 = [⟨1, [1, 1, 2], false, 2⟩, ⟨2, [2, 2, 3], false, 3⟩] := by
+/-- the former out-of-range witness (ncv = 3, k = 1, Ritz values [5, a, b]): with the guard the loop reads only indices 1, 2 —
+    but the complex values a, b are each given a single real shift (numerically inadequate, memory-safe) -/
+example : InBounds 3 (genPasses (ofL [(5, 0), (1, 2), (2, 1)]) 3 1) ∧ ¬ AllPaired (ofL [(5, 0), (1, 2), (2, 1)]) (genPasses (ofL [(5, 0), (1, 2), (2, 1)]) 3 1) := by
+  have h : genPasses (ofL [(5, 0), (1, 2), (2, 1)]) 3 1 = [⟨1, [1, 1, 2], false, 2⟩, ⟨2, [2], false, 3⟩] := by
     rw [genPasses_lt _ _ _ (by decide), genPasses_lt _ _ _ (by decide), genPasses_ge _ _ _ (by decide)]
     decide
-  rw [h]; decide
+  rw [h]; refine ⟨by decide, ?_⟩
+  intro hp; have := hp ⟨1, [1, 1, 2], false, 2⟩ (by simp) (by decide); exact absurd this (by decide)
 
 /-- in-bounds does NOT imply adjacency: [a, b, 5] from k = 0 is read in bounds (two single shifts with the real parts of a and b:
     numerically wrong, but memory-safe) although no complex value has its conjugate next to it -/
@@ -271,24 +271,25 @@ example : InBounds 3 (genPasses (ofL [(1, 2), (2, 1), (5, 0)]) 3 0) ∧ ¬ Adjac
   refine ⟨by rw [h]; decide, ?_⟩
   rw [adj_lt _ _ _ (by decide), if_pos (by decide)]; intro hh; exact absurd hh.2.1 (by decide)
 
-/-- ADJACENCY ALONE IS NOT ENOUGH (hypothesis `hns` of c13_gen_restart_safe_partial is needed): Ritz values [5, a, ā, a, ā]
-    (ncv = 5, nev = 3, no zero estimates, nconv = 0) ARE adjacent conjugate pairs, `nev_adjusted` computes p = 3 — a block boundary —
-    but m_ritz_val[2] = ā and m_ritz_val[3] = a are conjugates of each other, so it returns k = 4, INSIDE the second pair, and the
-    loop then reads index 5 = ncv. -/
+/-- ADJACENCY ALONE IS NOT ENOUGH for correct pairing (hypothesis `hns` of c13_gen_restart_pairs_partial): Ritz values
+    [5, a, ā, a, ā] (ncv = 5, nev = 3, nconv = 0) ARE adjacent conjugate pairs, `nev_adjusted` computes p = 3 — a block boundary —
+    but m_ritz_val[2] = ā and m_ritz_val[3] = a are conjugates of each other, so it returns k = 4, INSIDE the second pair; with the
+    guard the loop is memory-safe (reads index 4 only) but shifts with Re ā alone -/
 example : AdjacentConj (ofL [(5, 0), (1, 2), (1, -2), (1, 2), (1, -2)]) 5 0 ∧
     genNevAdj 3 5 (fun _ => ((100 : Int), (100 : Int))) (ofL [(5, 0), (1, 2), (1, -2), (1, 2), (1, -2)]) 0 = 4 ∧
-    ¬ InBounds 5 (genPasses (ofL [(5, 0), (1, 2), (1, -2), (1, 2), (1, -2)]) 5 4) := by
-  refine ⟨?_, by decide, ?_⟩
+    InBounds 5 (genPasses (ofL [(5, 0), (1, 2), (1, -2), (1, 2), (1, -2)]) 5 4) ∧
+    ¬ AllPaired (ofL [(5, 0), (1, 2), (1, -2), (1, 2), (1, -2)]) (genPasses (ofL [(5, 0), (1, 2), (1, -2), (1, 2), (1, -2)]) 5 4) := by
+  have h : genPasses (ofL [(5, 0), (1, 2), (1, -2), (1, 2), (1, -2)]) 5 4 = [⟨4, [4], false, 5⟩] := by
+    rw [genPasses_lt _ _ _ (by decide), genPasses_ge _ _ _ (by decide)]
+    decide
+  refine ⟨?_, by decide, by rw [h]; decide, ?_⟩
   · rw [adj_lt _ _ _ (by decide), if_neg (by decide)]
     rw [adj_lt _ _ _ (by decide), if_pos (by decide)]; refine ⟨by decide, by decide, ?_⟩
     rw [adj_lt _ _ _ (by decide), if_pos (by decide)]; refine ⟨by decide, by decide, ?_⟩
     exact adj_ge _ _ _ (by decide)
-  · have h : genPasses (ofL [(5, 0), (1, 2), (1, -2), (1, 2), (1, -2)]) 5 4 = [⟨4, [4, 4, 5], false, 5⟩] := by
-      rw [genPasses_lt _ _ _ (by decide), genPasses_ge _ _ _ (by decide)]
-      decide
-    rw [h]; decide
+  · rw [h]; intro hp; have := hp ⟨4, [4], false, 5⟩ (by simp) (by decide); exact absurd this (by decide)
 
-/-- the hypotheses of c13_gen_restart_safe_partial are satisfiable: [5, a, ā, 7], ncv = 4, nev = 1 (restart size becomes k = 3) -/
+/-- the hypotheses of c13_gen_restart_pairs_partial are satisfiable: [5, a, ā, 7], ncv = 4, nev = 1 (restart size becomes k = 3) -/
 example : AdjacentConj (ofL [(5, 0), (1, 2), (1, -2), (7, 0)]) 4 0 ∧
     genNevPre 1 4 (fun _ => ((100 : Int), (100 : Int))) 0 = 2 ∧
     genNevAdj 1 4 (fun _ => ((100 : Int), (100 : Int))) (ofL [(5, 0), (1, 2), (1, -2), (7, 0)]) 0 = 3 ∧
